@@ -50,6 +50,21 @@ CHECKS = {
         design="5/C07",
         technique="Coq proof over R (floor lemmas, lia/nra) + in-Coq binary64 correspondence + exact rational oracle",
         note="Out-of-range double->long long casts are modelled by their x86-64 result (-1 after the range test)."),
+    "C06": dict(
+        text=("Theorems on EVERY grid (any shape, any cell contents): upstream and downstream are inverse "
+              "relations (using distinctness of the eight direction codes re-extracted from grid.py and the "
+              "mirrored-slot law), sinks -2 / unknown codes -1 / invalid cells error; the delineated area is "
+              "exactly the outlet plus every cell whose downstream chain reaches the outlet without passing "
+              "through an inlet (soundness + completeness by induction over breadth-first layers), empty when "
+              "nothing drains to it, duplicate-free when the outlet is not on a cycle; on any grid (cycles "
+              "included) the loop ends within its fuel (never a hang); flow-path lengths equal the length of "
+              "the downstream chain (1 / sqrt 2 per step), 0 for the outlet; river traces are the downstream "
+              "chain with cumulative distances. Correspondence: exhaustive over all grids of <= 3 cells x "
+              "outlets x inlet subsets plus random grids to 8x8 (~86000 cases), exact, inside Coq; brute-force "
+              "reachability oracle with an independent ESRI table."),
+        design="5/C06",
+        technique="Coq proof (layer induction, reachability characterisation, fuel bound) + in-Coq exhaustive/sampled correspondence + brute-force graph oracle",
+        note="Hole filling (scipy binary_fill_holes) is not modelled: containment tested. The area model is at layer granularity (buffer-exhaustion errors derived from lengths), validated including error cases."),
 }
 
 NOT_YET = "check not built yet in this session; planned with the same technique (DESIGN.md section 5/8)"
